@@ -55,6 +55,16 @@ var (
 func installClientHook() {
 	hookInstall.Do(func() {
 		client.VerifHook = func(point string) {
+			if point == "client.update.before" {
+				// C16: a callback that may hold an update notification back
+				c16WinMu.Lock()
+				upd := c16UpdateHook
+				c16WinMu.Unlock()
+				if upd != nil {
+					upd()
+				}
+				return
+			}
 			if point != "client.monitor.reply" {
 				return
 			}
